@@ -160,7 +160,14 @@ func (vc *VC) atomicMethod(st *State, rt, name string, recvExpr ast.Expr, call *
 	}
 	switch name {
 	case "Load":
-		return sc(read(), s)
+		r := read()
+		if p.kind == pHeap && lastLoadTracked[p.owner+p.path] && !vc.specMode {
+			// ghost: the value this goroutine last loaded from the field (contracts refer to it as loaded(x.f.Load()))
+			h := "gh.lastload<" + p.owner + p.path + ">"
+			srt := ArrSort(SRef, Sort(s))
+			vc.heapSet(st, h, srt, store(vc.heapGet(st, h, srt), p.ref, r))
+		}
+		return sc(r, s)
 	case "Store":
 		v := vc.evalScalar(st, call.Args[0])
 		write(v.T)
@@ -233,6 +240,9 @@ func (vc *VC) atomicFunc(st *State, name string, call *ast.CallExpr) Val {
 	}
 	panic(unsupported("atomic.%s", name))
 }
+
+// atomic fields whose last loaded value is recorded per object (DSL: loaded(x.f.Load()))
+var lastLoadTracked = map[string]bool{"Entry.expire": true}
 
 // ---- locks -----------------------------------------------------------------------------------------
 
